@@ -28,6 +28,17 @@ fn pairs(_p: &Prog, prefix: &[Op], obs: &Value) -> Vec<Pair> {
         a.push(op);
         v.push(Pair { kind: kind.into(), hist_a: a, hist_b: prefix.to_vec(), norm: String::new(), injected: 1 });
     }
+    // a save taken from a story that was itself loaded, one operation later, with nothing in
+    // between that could re-synchronise the stored flows (q + [load, x, load] vs q + [x])
+    if let Some((x, q)) = prefix.split_last()
+        && !matches!(x, Op::SwitchFlow(_) | Op::SwitchDefault | Op::RemoveFlow(_))
+    {
+        let mut a = q.to_vec();
+        a.push(Op::LoadFresh);
+        a.push(x.clone());
+        a.push(Op::LoadFresh);
+        v.push(Pair { kind: "fresh-twice".into(), hist_a: a, hist_b: prefix.to_vec(), norm: String::new(), injected: 1 });
+    }
     v
 }
 
